@@ -1007,9 +1007,9 @@ where
 
     fn next(&self) -> Option<Task> {
         while {
+            vpoint!(SCHED, "W_Loop");
             #[cfg(grevm_verif)]
             crate::verif::spin_begin();
-            vpoint!(SCHED, "W_Loop");
             vemit!(SCHED, "W_Loop", "fin" => self.scheduler_ctx.finality_idx(),
                 "abort" => self.abort.load(std::sync::atomic::Ordering::Acquire));
             !self.scheduler_ctx.finished() && !self.is_aborted()
